@@ -11,6 +11,7 @@ spelling is at most `maxTokenSize` bytes, recursion depth is bounded.  The Go ru
 Helper lemmas: `Proof/TokenLemmas.lean`, `Proof/ParseLemmas.lean`.
 -/
 import WuffsVerif.Proof.TokenLemmas
+import WuffsVerif.Proof.ParseTopLemmas
 
 namespace WuffsVerif.Props.C11
 open WuffsVerif.Token WuffsVerif.Gen.C11
@@ -155,5 +156,115 @@ example : ∃ st, tokenize ⟨#[32]⟩ = .ok st ∧ st.iters = 1 ∧ st.toks.siz
   simp [step, stepSpace, ByteArray.size, ByteArray.get!]
   rw [loop]
   simp [ByteArray.size]
+
+/-! ## The parser theorems
+
+`Model/Parse.lean` mirrors lang/parse/parse.go *with the C11 repairs* (depth limits).  Its two
+recursion cycles are defined by well-founded recursion on `8 * (e + t + b) + rank` and
+`16 * b + rank`, where `e t b` are what is left of `MaxExprDepth + 1`, `MaxTypeExprDepth + 1`,
+`MaxBodyDepth + 1`; Lean's termination checker accepting these definitions *is* the proof that
+every cycle of parser calls passes a depth guard, i.e. that the recursion depth is at most
+`8 * (256 + 64 + 256) + 7` resp. `16 * 256 + 15` nested calls for every input. -/
+
+open WuffsVerif.Parse in
+/-- **parse_terminates.**  For every token list and option set the model of `parse.Parse`
+returns an AST or an ordinary error; it never reports `stuck`, the marker for "a loop of the
+parser (`parseList`, the operand / associative-operator loops, the statement loop, the file
+loop) made an iteration without consuming a token".  Together with the termination proofs of
+the definitions this is termination with linear progress: no hang on any input. -/
+theorem parse_terminates (env : Env) (toks : List Tok) : parseFile env toks ≠ .error .stuck :=
+  parseFile_ne_stuck env toks
+
+open WuffsVerif.Parse in
+/-- `failHere` fails with an ordinary `parse: … at file:line` error. -/
+theorem failHere_run {α : Type} (s : PState) :
+    ∃ l, (failHere : P α).run s = .error (.at l) := by
+  unfold failHere curLine
+  cases h : s.src <;> simp [StateT.run, bind, StateT.bind, get, getThe, MonadStateOf.get, StateT.get,
+    pure, StateT.pure, Except.bind, Except.pure, throw, throwThe, MonadExceptOf.throw, StateT.lift, h]
+
+open WuffsVerif.Parse in
+/-- **parse_depth_bounded (guards).**  With an exhausted depth budget each guarded function
+fails at once with an ordinary `parse: … recursion depth too large at file:line` error: the
+model-level statement of "bounded stack instead of stack overflow". -/
+theorem parse_depth_bounded (env : Env) (e t b : Nat) (dc : Bool) (s : PState) :
+    (∃ l, (pExpr env 0 t b).run s = .error (.at l)) ∧
+    (∃ l, (pTypeExpr env e 0 b).run s = .error (.at l)) ∧
+    (∃ l, (pBlock env e t 0 dc).run s = .error (.at l)) := by
+  refine ⟨?_, ?_, ?_⟩
+  · unfold pExpr; exact failHere_run s
+  · unfold pTypeExpr; exact failHere_run s
+  · unfold pBlock; exact failHere_run s
+
+open WuffsVerif.Parse in
+/-- The budgets `parse.Parse` starts with are the ast package's constants (+1: the Go guard is
+`depth > Max`), so the parser's recursion depth is bounded by constants, independent of the
+input. -/
+theorem parse_depth_budget :
+    MaxExprDepth + 1 = 256 ∧ MaxTypeExprDepth + 1 = 64 ∧ MaxBodyDepth + 1 = 256 ∧
+    8 * ((MaxExprDepth + 1) + (MaxTypeExprDepth + 1) + (MaxBodyDepth + 1)) + 7 = 4615 := by
+  decide
+
+open WuffsVerif.Parse in
+/-- **Progress of every parser function**: for all depth budgets, running any function of the
+expression cycle or the statement cycle from any state never grows the remaining-token list
+and never gets `stuck`; a top-level declaration consumes at least one token. -/
+theorem parse_progress (env : Env) (e t b : Nat) :
+    CoreGood env e t b ∧ StmtGood env e t b ∧ Good1 (parseTopLevelDecl env e t b) :=
+  ⟨core_good env _ e t b rfl, stmt_good env e t b, good1_parseTopLevelDecl env e t b⟩
+
+open WuffsVerif.Parse in
+theorem failHere_bind_not_ok {α β : Type} (f : α → P β) (s : PState) (r : β × PState) :
+    StateT.bind (failHere : P α) f s ≠ .ok r := by
+  unfold failHere curLine
+  cases h : s.src <;> simp [bind, StateT.bind, get, getThe, MonadStateOf.get, StateT.get,
+    pure, StateT.pure, Except.bind, Except.pure, throw, throwThe, MonadExceptOf.throw, StateT.lift, h]
+
+open WuffsVerif.Parse in
+/-- **parse_no_stuck_operand (partial).**  The model-level statement of "no nil dereference
+later" for the construct that crashed the real parser: every assignment that
+`parseIterateAssignNode` returns has a left-hand side, it is a plain variable, the operator is
+`=` and the value is effect-free — `iterate (x)(…)` is an error, not a node with a nil child.
+Missing for the full `parse_no_stuck_operand`: the same "children required by the kind are
+present" statement for every node kind built by the other parser functions
+(OPEN: needs a postcondition logic like `Good` for values; the differential AST dump covers it
+by sampling only). -/
+theorem parse_no_stuck_operand_partial (env : Env) (pe : P Node) (s s' : PState) (n : Node)
+    (h : (parseIterateAssignNode env pe).run s = .ok (n, s')) :
+    n.lhs.isNil = false ∧ n.id0 = IDEq ∧ n.lhs.id0 = 0 ∧ effectOf n.rhs = 0 := by
+  unfold parseIterateAssignNode at h
+  simp only [StateT.run, bind, StateT.bind, Except.bind] at h
+  cases hr : parseAssignNode env pe s with
+  | error e => simp [hr] at h
+  | ok p =>
+    obtain ⟨m, s1⟩ := p
+    simp only [hr] at h
+    by_cases h1 : (m.id0 != IDEq) = true
+    · simp only [h1, ite_true] at h
+      exact absurd h (failHere_bind_not_ok _ _ _)
+    · by_cases h2 : m.lhs.isNil = true
+      · simp only [h1, h2, ite_true] at h
+        simp at h
+        exact absurd h (failHere_bind_not_ok _ _ _)
+      · by_cases h3 : (m.lhs.id0 != 0) = true
+        · simp [h1, h2, h3] at h
+          exact absurd h (failHere_bind_not_ok _ _ _)
+        · by_cases h4 : (effectOf m.rhs != 0) = true
+          · simp [h1, h2, h3] at h
+            simp at h3 h4
+            simp [h3, h4] at h
+            exact absurd h (failHere_bind_not_ok _ _ _)
+          · simp at h1 h2 h3 h4
+            simp [h1, h2, h3, h4, pure, StateT.pure, Except.pure] at h
+            obtain ⟨hn, _⟩ := h
+            subst hn
+            exact ⟨by simpa using h2, h1, h3, h4⟩
+
+/-- non-vacuity: the empty token list parses to an empty file. -/
+example : ∃ n, Parse.parseFile ⟨{}, {}⟩ [] = .ok n := by
+  refine ⟨.mk Parse.KFile 0 0 0 0 0 .nil .nil .nil [] [] [], ?_⟩
+  unfold Parse.parseFile
+  simp [Parse.parseFileLoop, StateT.run, bind, StateT.bind, get, getThe, MonadStateOf.get,
+    StateT.get, pure, StateT.pure, Except.bind, Except.pure]
 
 end WuffsVerif.Props.C11
